@@ -81,6 +81,7 @@ type Engine struct {
 	MaxInstrs   int64
 	MaxDecisions int
 	decided      map[string]bool
+	sched        *scheduler
 	budgetAt     int64
 	budgetMsg    string
 	TimeoutMs   int
@@ -256,6 +257,7 @@ func (e *Engine) resetPath() {
 	e.snaps = map[*value]bool{}
 	e.decided = map[string]bool{}
 	e.budgetAt = 0
+	e.sched = nil
 	if e.depth > 0 {
 		e.send(fmt.Sprintf("(pop %d)", e.depth))
 	}
